@@ -28,6 +28,7 @@ type HarnessSpec struct {
 	MaxSteps      int64            `json:"max_steps,omitempty"`
 	MaxDecisions  int              `json:"max_decisions,omitempty"`
 	ReplayFunc    string           `json:"replay_func,omitempty"` // native function to run for replay (default: Func)
+	ReplayPackage string           `json:"replay_package,omitempty"`
 	NoReplay      string           `json:"no_replay,omitempty"`   // reason why a counterexample cannot be replayed natively
 	Bounds        string           `json:"bounds"`
 	What          string           `json:"what"`
@@ -454,6 +455,9 @@ func nativeReplay(vdir string, spec *Spec, hdir string, h HarnessSpec, pkgPath, 
 	if h.ReplayFunc != "" {
 		fn = h.ReplayFunc
 	}
+	if h.ReplayPackage != "" {
+		pkgPath = h.ReplayPackage
+	}
 	out, err := runNative(vdir, spec, hdir, pkgPath, fn, replayPath, "replay", 60)
 	_ = err
 	return strings.Contains(out, "VERIF-REPLAY: REPRODUCED"), out
@@ -534,10 +538,23 @@ func TestVerifNative(t *testing.T) {
 	ovb, _ := json.Marshal(map[string]interface{}{"Replace": repl})
 	ovf := filepath.Join(tmp, "overlay.json")
 	os.WriteFile(ovf, ovb, 0o644)
-	cmd := exec.Command("go", "test", "-v", "-vet=off", "-count=1", "-overlay", ovf, "-run", "^TestVerifNative$", "-timeout", fmt.Sprintf("%ds", timeoutS), "./"+rel)
-	cmd.Dir = repo
-	cmd.Env = append(os.Environ(), "GOFLAGS=-mod=mod", "GOPROXY=off", "VERIF_MODEL="+replayPath, "VERIF_MODE="+mode, "MUREX_TEST_NO_HTTP=true")
+	// compile the test binary, then run it (the package directory may exist only in the overlay)
+	bin := filepath.Join(tmp, "native.test")
 	var buf bytes.Buffer
+	cc := exec.Command("go", "test", "-c", "-vet=off", "-overlay", ovf, "-o", bin, "./"+rel)
+	cc.Dir = repo
+	cc.Env = append(os.Environ(), "GOFLAGS=-mod=mod", "GOPROXY=off")
+	cc.Stdout = &buf
+	cc.Stderr = &buf
+	if err := cc.Run(); err != nil {
+		return "native harness does not compile: " + buf.String(), err
+	}
+	cmd := exec.Command(bin, "-test.v", "-test.run", "^TestVerifNative$", "-test.timeout", fmt.Sprintf("%ds", timeoutS))
+	cmd.Dir = repo
+	if st, err := os.Stat(filepath.Join(repo, rel)); err == nil && st.IsDir() {
+		cmd.Dir = filepath.Join(repo, rel)
+	}
+	cmd.Env = append(os.Environ(), "VERIF_MODEL="+replayPath, "VERIF_MODE="+mode, "MUREX_TEST_NO_HTTP=true", "HOME="+tmp)
 	cmd.Stdout = &buf
 	cmd.Stderr = &buf
 	err = cmd.Run()
